@@ -19,7 +19,7 @@ func init() {
 		Run: c12,
 		Explanation: "Decides the shapes that keep composition revisions a faithful, monotonic history: (R12.1) the reconciler writes only Spec.Revision and owner references of listed revisions, creates only NewCompositionRevision(comp, n), whose spec is the converted Composition spec with the number overwritten; (R12.2) the hash label written and the hash compared derive from Composition.Hash() with the same constant truncation; " +
 			"(R12.3) the latest revision number is computed from controller-filtered revisions only after every orphaned revision was re-adopted in place (no adoption of elements of that list is reachable after LatestRevision, and adoption acts on the list's own elements, not copies); (R12.4) every number stored or created is latestRev+1, creation needs the no-existing-revision edge, and a failed renumbering write is never turned into a plain success; " +
-			"(R12.5) LatestRevision skips uncontrolled revisions; the Manual policy returns the pinned revision without any write; revision selectors apply only under Automatic; the XR's revision reference is rewritten only when it differs. (R12.6) every success return of the composition reconciler lies behind the List of the stored revisions (or the Composition is being deleted): nothing is decided from remembered state.",
+			"(R12.5) LatestRevision skips uncontrolled revisions; the Manual policy returns the pinned revision without any write; revision selectors apply only under Automatic; the XR's revision reference is rewritten only when it differs. (R12.6) every success return of the composition reconciler lies behind the List of the stored revisions (or the Composition is being deleted): nothing is decided from remembered state. R12.5 also requires that the labels narrowing the revisions are those of the XR's compositionRevisionSelector.",
 		NotDecided:  []string{"histories as values (A-B-A numbering over several reconciles)", "crash points between the adoption writes and the renumbering", "hash collisions (Hash() concatenates labels, annotations and spec YAML without separators)", "that Composition labels cannot overwrite the hash label of a new revision (observation, outside the statement)"},
 		Assumptions: []string{"metav1.IsControlledBy compares owner UID"},
 	})
